@@ -34,30 +34,40 @@ def run(ctx, config="default"):
         ctx.missing("C14.S1", imodel.DISC_NEW, "disclosure constructor not found")
         return
     dv = vals(D)
-    firsts = imodel.salt_generator(fx, D)
-    ctx.floor("C14.S1", "disclosure text format sites", len(firsts), 2)
+    sites = imodel.text_sites(fx)
+    ctx.floor("C14.S1", "disclosure text format sites", len(sites), 2)
     gens = set()
-    for (b, a0) in firsts:
-        line = D.term(b).get("line")
-        p = peel(a0)
-        if p.kind == "call" and p.d["term"].get("resolved_local") and p.fn is D and not p.kids:
-            gens.add(p.d["term"]["resolved"])
-            ctx.ok("C14.S1", D, "salt-is-first-arg", "the first formatted field of the disclosure text is the result of %s() called in this invocation" % p.d["term"]["resolved"], line=line)
-        else:
-            ctx.finding("C14.S1", D, "salt-is-first-arg", "the salt field of the disclosure text is not a fresh generator call made in this invocation: %s" % vstr(a0, 4), line=line)
+    for (tf, b, n, pcs) in sites:
+        line = tf.term(b).get("line")
+        args = [x for (k, x) in pcs if k == "arg"]
+        if not args:
+            continue
+        for (host, p) in imodel.resolve_through_params(fx, tf, args[0]):
+            if p.kind == "call" and p.d["term"].get("resolved_local") and p.d["term"].get("resolved") in fx.fns and not [k for k in p.kids if peel(k).kind != "const"]:
+                gens.add(p.d["term"]["resolved"])
+                ctx.ok("C14.S1", host, "salt-is-first-arg", "the salt field of the disclosure text is the result of %s() called for this disclosure (in %s)" % (p.d["term"]["resolved"], host.name), line=line)
+            else:
+                src = [x.d.get("name") for x in walk(p) if x.kind == "field" and x.d.get("adt") in (imodel.ISTRUCT,)]
+                why = ("it is taken from issuer state `%s`" % src[0]) if src else ("it is %s" % vstr(p, 4))
+                ctx.finding("C14.S1", host, "salt-is-first-arg", "the salt field of the disclosure text is not a fresh generator call made for this disclosure: %s — salts can repeat across disclosures / issuances" % why, line=line)
     if len(gens) != 1:
         if gens:
             ctx.finding("C14.S1", D, "one-generator", "different salt sources are used: %s" % sorted(gens))
         return
     gname = list(gens)[0]
     G = fx.fn(gname)
-    calls = [b for b, t in D.calls() if t.get("resolved") == gname]
-    rets = cfg.return_blocks(D)
-    once = len(calls) == 1 and calls[0] not in cfg.reach_strict(D, calls[0]) and not any(r in cfg.reachable(D, [0], removed_blocks=calls) for r in rets)
-    if once:
-        ctx.ok("C14.S1", D, "exactly-one-salt", "exactly one call to %s on every path through the constructor" % gname, line=D.term(calls[0]).get("line"))
-    else:
-        ctx.finding("C14.S1", D, "exactly-one-salt", "the constructor does not draw exactly one salt on every path (%d call sites)" % len(calls))
+    # exactly one draw per disclosure: in the function that makes the call, one call site, not in a loop, on every path to return
+    hosts = [f for f in fx.fns.values() if not f.is_macro_generated() and f.name.startswith("disclosure::") and any(t.get("resolved") == gname for _, t in f.calls())]
+    for hf in hosts:
+        calls = [b for b, t in hf.calls() if t.get("resolved") == gname]
+        rets = cfg.return_blocks(hf)
+        once = len(calls) == 1 and calls[0] not in cfg.reach_strict(hf, calls[0]) and not any(r in cfg.reachable(hf, [0], removed_blocks=calls) for r in rets)
+        if once:
+            ctx.ok("C14.S1", hf, "exactly-one-salt", "exactly one call to %s on every path through %s" % (gname, hf.name), line=hf.term(calls[0]).get("line"))
+        else:
+            ctx.finding("C14.S1", hf, "exactly-one-salt", "%s does not draw exactly one salt on every path (%d call sites)" % (hf.name, len(calls)))
+    if not hosts:
+        ctx.finding("C14.S1", D, "exactly-one-salt", "no disclosure-building function calls the salt generator")
     # ---- S2 generator
     gv = vals(G)
     fills = [(b, t) for b, t in G.calls() if t.get("name") in ("fill_bytes", "try_fill_bytes", "fill") and t.get("trait") in ("rand::RngCore", "rand_core::RngCore", "rand::Rng")]
